@@ -315,13 +315,18 @@ Definition scan_block_scalar (literal : bool) : M token :=
       | Strip => 0
       | _ => if m_line (sc_mark s) =? m_line start then 0
              else match chomp with
-                  | Clip => cbreak
-                  | _ => if tbreaks =? 0 then cbreak else tbreaks
+                  | Clip => 0
+                  | _ => tbreaks + (if 0 <? m_col (sc_mark s) then 1 else 0)
                   end
       end in
     ret ({| sp_start := start; sp_end := sc_mark s |}, TScalar style (nls contents []))
   else
-  if (m_col (sc_mark s) <? indent) && (sc_indent s <? Z.of_N (m_col (sc_mark s)))%Z then fail 83 (sc_mark s) else
+  wrong <- (if (m_col (sc_mark s) <? indent) && (sc_indent s <? Z.of_N (m_col (sc_mark s)))%Z then
+              look ops 4 ;;; di <- next_is_document_indicator ops ;;
+              ret (negb ((m_col (sc_mark s) =? 0) && di))
+            else ret false) ;;
+  if wrong then fail 83 (sc_mark s) else
+  s <- get ;;
   let cstart := sc_mark s in
   r <- (fix go (f : nat) (acc : list chr) (lb : N) (tb : N) (leading_blank : bool) : M (list chr * N * N) :=
      match f with
